@@ -353,6 +353,27 @@ async def coap_case(ctx, idx: int, scenario: str) -> None:
         except Exception as ex:  # noqa: BLE001
             ctx.violation(f"coap-setup-start-fails-{type(ex).__name__}", f"{label}: {ex!r}", replay)
             return
+        if scenario in ("wrong-then-right", "bad-proof-then-right"):
+            # a FAILED attempt first (the user mistypes the code / the accessory's M4 proof arrives damaged), then the user tries
+            # again on the same connection object with the right code: an honest accessory and the right code pair
+            if scenario == "bad-proof-then-right":
+                def damage(items, reply):
+                    # one bit of the accessory's proof (M4) flipped in transit
+                    return [(t, (bytes(v[:-1]) + bytes([v[-1] ^ 1])) if t == 4 else v) for t, v in reply]
+
+                peer.reply_hook = damage
+            try:
+                await asyncio.wait_for(conn.do_pair_setup_finish(wrong if scenario == "wrong-then-right" else code, salt, srp_b), 60)
+                ctx.violation("coap-setup-returns-pairing-for-wrong-code", f"{label}: the first attempt returned a record", replay)
+                return
+            except Exception:  # noqa: BLE001 - the failed first attempt
+                ctx.count("coap_setup_first_attempts_failed")
+            peer.reply_hook = None
+            try:
+                salt, srp_b = await asyncio.wait_for(conn.do_pair_setup(False), 60)
+            except Exception as ex:  # noqa: BLE001
+                ctx.violation(f"coap-setup-start-fails-{type(ex).__name__}", f"{label}: second attempt on the same connection object: {ex!r}", replay)
+                return
         use = wrong if scenario == "wrong-code" else code
         try:
             record = await asyncio.wait_for(conn.do_pair_setup_finish(use, salt, srp_b), 60)
@@ -515,6 +536,10 @@ async def run_all(ctx) -> None:
             j += 1
             if ctx.mine(j):
                 await ip_case(ctx, k, sc)
+            j += 1
+            if ctx.mine(j):
+                await coap_case(ctx, k, sc)
+        for sc in ("wrong-then-right", "bad-proof-then-right"):
             j += 1
             if ctx.mine(j):
                 await coap_case(ctx, k, sc)
